@@ -14,10 +14,17 @@ import (
 // expected ev() strings. The renderer never computes an expected value: it only spells the
 // model's events in the projection of harness/show.
 
-const c05Prelude = `var c05any = []interface{}{7, "s", true, nil}
+// the dynamic types of the type switches: int, string, bool, nil and two COMPILED types that
+// implement the compiled interface fmt.Stringer (an interpreted interface as case of a switch
+// over interface{} would be an interface-to-interface assertion on interpreted interfaces:
+// documented limitation)
+const c05PreludeDecls = `var c05any = []interface{}{7, "s", true, nil, time.Duration(4), time.Month(5)}
 var c05nil chan int
 type c05Int int
 `
+
+const c05Prelude = "import \"time\"\n" + c05PreludeDecls
+const c05GatePrelude = "var _ = time.Now\n" + c05PreludeDecls
 
 // c05Cell: renderer-supplied specialisation of the switch statements of a tree.
 type c05Cell struct {
@@ -252,13 +259,13 @@ func (r *c05R) stmt(id, ind int) {
 		r.sw(id, ind)
 	case "tsw":
 		r.labels(id, ind, nil)
-		sel := fmt.Sprintf("c05any[%s%%4]", n.C)
+		sel := fmt.Sprintf("c05any[%s%%6]", n.C)
 		if n.F == "bind" {
 			r.line(ind, "switch v%d := %s.(type) {", id, sel)
 		} else {
 			r.line(ind, "switch %s.(type) {", sel)
 		}
-		names := []string{"int", "string", "bool", "nil"}
+		names := []string{"int", "string", "bool", "nil", "time.Duration", "time.Month", "fmt.Stringer", "interface{}"}
 		for j, cl := range n.Lay {
 			if cl.Def {
 				r.line(ind, "default:")
@@ -269,7 +276,10 @@ func (r *c05R) stmt(id, ind int) {
 				}
 				r.line(ind, "case %s:", strings.Join(ts, ", "))
 			}
-			if n.F == "bind" {
+			if n.F == "bind" && c05ClauseIsStr(cl) {
+				// the variable has the type fmt.Stringer: observe it through its method
+				r.block(id, j+1, ind+1, fmt.Sprintf("ev(%d, %d, v%d.String())", id, j+1, id))
+			} else if n.F == "bind" {
 				r.block(id, j+1, ind+1, fmt.Sprintf("ev(%d, %d, v%d)", id, j+1, id))
 			} else {
 				r.block(id, j+1, ind+1, fmt.Sprintf("ev(%d, %d)", id, j+1))
@@ -498,7 +508,14 @@ func (r *c05R) sel(id, ind int) {
 	r.line(ind, "}")
 }
 
-var c05TypeShow = []string{"int:7", `string:"s"`, "bool:true", "nil"}
+var c05TypeShow = []string{"int:7", `string:"s"`, "bool:true", "nil", "int64:4", "int:5"}
+var c05StrShow = map[int]string{4: `string:"4ns"`, 5: `string:"May"`}
+
+// c05ClauseIsStr: the clause lists the interface { String() string } alone, so the variable
+// bound by the type switch has that type
+func c05ClauseIsStr(cl c05Clause) bool {
+	return !cl.Def && len(cl.Ts) == 1 && cl.Ts[0].V == 6
+}
 
 func c05Ints(e []interface{}) string {
 	parts := make([]string, len(e))
@@ -536,7 +553,12 @@ func c05Render(rec *c05Rec, cell c05Cell, raw []byte) *ProgCase {
 		}
 		switch e[0] {
 		case "ts":
-			pc.WantEvents = append(pc.WantEvents, c05Ints(e[1:3])+" "+c05TypeShow[num(e[3])])
+			ty := num(e[3])
+			shown := c05TypeShow[ty]
+			if nd, j := num(e[1]), num(e[2]); nd >= 1 && nd <= len(rec.Nodes) && j >= 1 && j <= len(rec.Nodes[nd-1].Lay) && c05ClauseIsStr(rec.Nodes[nd-1].Lay[j-1]) {
+				shown = c05StrShow[ty]
+			}
+			pc.WantEvents = append(pc.WantEvents, c05Ints(e[1:3])+" "+shown)
 		case "so":
 			pc.WantEvents = append(pc.WantEvents, c05Ints(e[1:4])+" bool:"+fmt.Sprint(num(e[4]) != 0))
 		default:
